@@ -38,6 +38,7 @@ pub fn run_property(id: &str, tier: Tier, replay: Option<(String, Value)>) -> i3
         "C12" => c12,
         "C13" => c13,
         "C14" => c14,
+        "C15" => c15,
         "C16" => c16,
         "C18" => c18,
     }
